@@ -7,10 +7,16 @@ proof          : coq/theories/Props/C13.v (Proofs/RoundtripProofs.v, Proofs/Orde
                  not covered); DataSaver / BalancingLearner: inherit the round trip of their children, extra_data
                  verbatim, no child skipped.
 search         : from-scratch oracle on the real classes, every learner type that runs on this platform and the two
-                 wrappers around each: ask-driven histories with out-of-order delivery that end with nothing pending,
-                 scalar and vector outputs; save/load (gzip and raw) into learner.new(), pickle, cloudpickle,
-                 new().copy_from(): data equal exactly, loss() and the next ten suggestions as far as the property
-                 demands them (see `demands`).
+                 wrappers around each, constructor parameters drawn from default AND non-default values (gen_cfg):
+                 ask-driven histories with out-of-order delivery that end with nothing pending, stopped EARLY (a
+                 handful of results: below min_npoints / min_samples, before both end points / all corners / the
+                 integrator's first interval are done) as well as late, scalar and vector outputs; save/load (gzip
+                 and raw) into learner.new(), pickle, cloudpickle, new().copy_from(): data equal exactly, loss() and
+                 the next ten suggestions as far as the property demands them (see `demands`); then the run GOES ON
+                 (continue_run): original and every restored copy are taken through the same further history (batch
+                 asks, results held back / delivered out of order / partly discarded; IntegratorLearner: batches of
+                 25..80 with abscissae shared by several intervals arriving last) and must keep agreeing on data,
+                 loss() and every answer to ask (see `cont_demands`).
 (no step-by-step correspondence: the byte layer is exercised directly on the real classes.)
 """
 from __future__ import annotations
@@ -37,6 +43,9 @@ SIG_XSCALE = ("C13:Learner1D:file/copy_from restore of a learner lacking an eval
 SIG_CYCLE_TENTATIVE = ("C13:BalancingLearner:pickle strategy='cycle' after ask(tell_pending=False) resumes at the wrong child "
                        "(_cycle_position not rolled back by the tentative ask)")
 SIG_CYCLE = "C13:BalancingLearner:pickle strategy='cycle' restarts at the first child (position in the cycle is not part of the pickled state)"
+CONT_STATS = {"cont_runs": 0, "cont_tells": 0, "cont_asks": 0, "cont_int_batch_asks": 0, "cont_int_rounds_shared_points_last": 0,
+              "cont_not_started_answers_equal_only_up_to_rounding": 0, "cont_stopped_answers_equal_only_up_to_rounding": 0,
+              "cont_rounds_results_held_back": 0, "early_histories": 0}
 MECHS = ["save_gz", "save_raw", "pickle", "cloudpickle", "copy_from"]
 LOSS_RTOL = 1e-12
 ASK_RTOL = 1e-10
@@ -108,6 +117,28 @@ def g1_ramp_peak_vec(x, a=1.0, pos=0.3, w=0.02):
     return np.array([y, 0.5 * y])
 
 
+def l1d_loss_nn2(xs, ys):
+    """A Learner1D loss that looks two intervals to either side (nth_neighbors = 2): interval length times
+    (0.1 + total variation of y over the up to five intervals around it).  xs / ys hold None beyond the data."""
+    tv, prev = 0.0, None
+    for x, y in zip(xs, ys):
+        if x is None:
+            prev = None
+            continue
+        if prev is not None:
+            tv += float(np.sum(np.abs(np.asarray(y, dtype=float) - np.asarray(prev, dtype=float))))
+        prev = y
+    return float((xs[3] - xs[2]) * (0.1 + tv))
+
+
+l1d_loss_nn2.nth_neighbors = 2
+
+
+def pick_val(result):
+    """a DataSaver arg_picker that is not an itemgetter"""
+    return result["val"]
+
+
 G1 = {"smooth": g1_smooth, "peak": g1_peak, "step": g1_step, "vec": g1_vec}
 GN = {"smooth": gn_smooth, "ring": gn_ring, "vec": gn_vec}
 GINT = {"sqrt": g_int_sqrt, "peak": g_int_peak, "kink": g_int_kink}
@@ -116,41 +147,60 @@ GINT = {"sqrt": g_int_sqrt, "peak": g_int_peak, "kink": g_int_kink}
 class WithExtra:
     """function for DataSaver: returns {"y": value, "t": tag}"""
 
-    def __init__(self, f):
+    def __init__(self, f, key="y"):
         self.f = f
+        self.key = key
 
     def __call__(self, x):
         y = self.f(x)
-        return {"y": y, "t": ("tag", repr(x)[:40]), "n": len(repr(x))}
+        return {self.key: y, "t": ("tag", repr(x)[:40]), "n": len(repr(x))}
 
 
 # ------------------------------------------------------------------ construction
 BASE_KINDS = ["l1d", "lnd2", "lnd3", "avg", "avg1d", "seq", "int"]
 
 
+L1D_LOSSES = ["default", "default", "uniform", "triangle", "curvature", "curvature2", "resolution", "resolution2", "nn2"]
+LND_LOSSES = ["default", "default", "uniform", "std", "triangle", "curvature", "curvature2"]
+
+
 def gen_cfg(rng, kind, quick):
+    """Constructor parameters are drawn from default AND non-default values for every learner type; `early`
+    histories stop after a handful of results (below min_npoints / min_samples, before both end points / all
+    corners / the first interval of the integrator are done)."""
     a = rng.choice([1.0, 0.5, 2.0, -1.5])
+    early = rng.random() < (0.5 if kind == "int" else 0.35)
     if kind == "l1d":
         return {"kind": kind, "f": rng.choice(list(G1)), "a": a, "bounds": rng.choice([(-1.0, 1.0), (0.0, 1.0), (-3.0, 7.5)]),
-                "loss": rng.choice(["default", "default", "uniform", "triangle", "curvature", "resolution"]),
-                "factor": rng.choice([1, 1, 2]), "n": rng.randint(3, 30 if quick else 60)}
+                "loss": rng.choice(L1D_LOSSES), "early": early,
+                "factor": rng.choice([1, 1, 2]), "n": rng.randint(1, 3) if early else rng.randint(3, 30 if quick else 60)}
     if kind in ("lnd2", "lnd3", "l2d"):
         hole = {"corner_hole": rng.random() < 0.4} if kind == "l2d" else {}
-        return {**hole, "kind": kind, "f": rng.choice(list(GN)), "a": a, "loss": rng.choice(["default", "uniform"]),
-                "n": rng.randint(6, 22 if quick else 45) if kind != "lnd3" else rng.randint(10, 20 if quick else 35)}
+        loss = rng.choice(["default", "uniform"]) if kind == "l2d" else rng.choice(LND_LOSSES)
+        n = rng.randint(6, 22 if quick else 45) if kind != "lnd3" else rng.randint(10, 20 if quick else 35)
+        if early:
+            n = rng.randint(1, 8 if kind == "lnd3" else 4)
+        return {**hole, "kind": kind, "f": rng.choice(list(GN)), "a": a, "loss": loss, "early": early, "n": n}
     if kind == "avg":
-        return {"kind": kind, "a": a, "atol": rng.choice([0.01, 0.1]), "rtol": rng.choice([0.01, 1.0]),
-                "min_npoints": rng.choice([2, 5]), "n": rng.randint(2, 30)}
+        atol, rtol = rng.choice([(0.01, 0.01), (0.1, 1.0), (None, 0.05), (0.5, None), (1e-3, 0.3)])
+        k = rng.choice([2, 2, 3, 5, 10, 25])
+        return {"kind": kind, "a": a, "atol": atol, "rtol": rtol, "min_npoints": k, "early": early,
+                "n": rng.randint(1, k) if early else rng.randint(2, 30)}
     if kind == "avg1d":
-        return {"kind": kind, "a": a, "bounds": (-1.0, 1.0), "n": rng.randint(10, 150 if quick else 600),
+        ms = rng.choice([1, 2, 2, 3, 5, 50])
+        return {"kind": kind, "a": a, "bounds": rng.choice([(-1.0, 1.0), (-1.0, 1.0), (0.0, 2.5)]), "early": early,
+                "n": rng.randint(1, 12) if early else rng.randint(10, 150 if quick else 600),
                 # small min_samples: locations with exactly one, two, three samples exist when the snapshot is taken
-                "min_samples": rng.choice([1, 2, 2, 3, 5, 50]), "delta": rng.choice([0.2, 0.5])}
+                "min_samples": ms, "delta": rng.choice([0.2, 0.5, 1.0]), "alpha": rng.choice([0.005, 0.05, 0.3]),
+                "max_samples": rng.choice([None, None, ms + 3, 4 * ms + 20]), "neighbor_sampling": rng.choice([0.3, 0.1, 1.0]),
+                "min_error": rng.choice([0, 0, 0.05]), "loss": rng.choice(["default", "default", "uniform", "triangle"])}
     if kind == "seq":
-        return {"kind": kind, "a": a, "elems": rng.choice(["int", "list"]), "ntotal": rng.choice([3, 5, 10, 25]),
-                "n": rng.randint(1, 25)}
+        return {"kind": kind, "a": a, "elems": rng.choice(["int", "list", "float", "tuple"]), "ntotal": rng.choice([3, 5, 10, 25]),
+                "early": early, "n": rng.randint(1, 2) if early else rng.randint(1, 25)}
     if kind == "int":
-        return {"kind": kind, "f": rng.choice(list(GINT)), "a": a, "tol": rng.choice([1e-6, 1e-9]),
-                "n": rng.randint(20, 90 if quick else 250)}
+        return {"kind": kind, "f": rng.choice(list(GINT)), "a": a, "tol": rng.choice([1e-3, 1e-6, 1e-9, 1e-12]),
+                "bounds": rng.choice([(0.0, 1.0), (0.0, 1.0), (-1.0, 2.0), (0.25, 0.75)]), "early": early,
+                "n": rng.randint(1, 8) if early else rng.randint(20, 90 if quick else 250)}
     raise ValueError(kind)
 
 
@@ -159,17 +209,24 @@ def make_base(cfg, a=None, extra=False):
     from adaptive.learner import learner1D as m1, learnerND as mn
     kind = cfg["kind"]
     a = cfg["a"] if a is None else a
-    wrap = (lambda f: WithExtra(f)) if extra else (lambda f: f)
-    if kind == "l1d":
-        loss = {"default": None, "uniform": m1.uniform_loss, "triangle": m1.triangle_loss,
+    wrap = (lambda f: WithExtra(f, "val" if cfg.get("picker") in ("val", "fn") else "y")) if extra else (lambda f: f)
+
+    def l1d_loss(nm):
+        return {"default": None, "uniform": m1.uniform_loss, "triangle": m1.triangle_loss,
                 "curvature": m1.curvature_loss_function(),
-                "resolution": m1.resolution_loss_function(min_length=0.01, max_length=1.0)}[cfg["loss"]]
-        l = adaptive.Learner1D(wrap(functools.partial(G1[cfg["f"]], a=a)), tuple(cfg["bounds"]), loss_per_interval=loss)
+                "curvature2": m1.curvature_loss_function(area_factor=2.0, euclid_factor=0.1, horizontal_factor=0.3),
+                "resolution": m1.resolution_loss_function(min_length=0.01, max_length=1.0),
+                "resolution2": m1.resolution_loss_function(min_length=0.05, max_length=0.3),
+                "nn2": l1d_loss_nn2}[nm]
+
+    if kind == "l1d":
+        l = adaptive.Learner1D(wrap(functools.partial(G1[cfg["f"]], a=a)), tuple(cfg["bounds"]), loss_per_interval=l1d_loss(cfg["loss"]))
         l._recompute_losses_factor = cfg["factor"]
         return l
     if kind in ("lnd2", "lnd3"):
         d = 2 if kind == "lnd2" else 3
-        loss = {"default": None, "uniform": mn.uniform_loss}[cfg["loss"]]
+        loss = {"default": None, "uniform": mn.uniform_loss, "std": mn.std_loss, "triangle": mn.triangle_loss,
+                "curvature": mn.curvature_loss_function(), "curvature2": mn.curvature_loss_function(exploration=0.3)}[cfg["loss"]]
         return adaptive.LearnerND(wrap(functools.partial(GN[cfg["f"]], a=a)), ((-1.0, 1.0),) * d, loss_per_simplex=loss)
     if kind == "l2d":
         return adaptive.Learner2D(wrap(functools.partial(GN[cfg["f"]], a=a)), ((-1.0, 1.0), (-1.0, 1.0)))
@@ -177,16 +234,23 @@ def make_base(cfg, a=None, extra=False):
         return adaptive.AverageLearner(wrap(functools.partial(g_avg, a=a)), atol=cfg["atol"], rtol=cfg["rtol"],
                                        min_npoints=cfg["min_npoints"])
     if kind == "avg1d":
+        import sys
         l = adaptive.AverageLearner1D(wrap(functools.partial(g_avg1d, a=a)), tuple(cfg["bounds"]),
-                                      delta=cfg.get("delta", 0.2), min_samples=cfg.get("min_samples", 50))
+                                      loss_per_interval=l1d_loss(cfg.get("loss", "default")),
+                                      delta=cfg.get("delta", 0.2), alpha=cfg.get("alpha", 0.005),
+                                      neighbor_sampling=cfg.get("neighbor_sampling", 0.3),
+                                      min_samples=cfg.get("min_samples", 50), max_samples=cfg.get("max_samples") or sys.maxsize,
+                                      min_error=cfg.get("min_error", 0))
         l._recompute_losses_factor = 1
         return l
     if kind == "seq":
-        seq = list(range(100, 100 + cfg["ntotal"])) if cfg["elems"] == "int" or extra else \
-            [[i, 2 * i] for i in range(cfg["ntotal"])]
+        n = cfg["ntotal"]
+        seq = list(range(100, 100 + n)) if cfg["elems"] == "int" or extra else \
+            [0.5 * i - 1.0 for i in range(n)] if cfg["elems"] == "float" else \
+            tuple((i, 2 * i) for i in range(n)) if cfg["elems"] == "tuple" else [[i, 2 * i] for i in range(n)]
         return adaptive.SequenceLearner(wrap(functools.partial(g_seq, a=a)), seq)
     if kind == "int":
-        return adaptive.IntegratorLearner(wrap(functools.partial(GINT[cfg["f"]], a=a)), (0.0, 1.0), tol=cfg["tol"])
+        return adaptive.IntegratorLearner(wrap(functools.partial(GINT[cfg["f"]], a=a)), tuple(cfg.get("bounds", (0.0, 1.0))), tol=cfg["tol"])
     raise ValueError(kind)
 
 
@@ -197,10 +261,12 @@ def make(cfg):
     if w is None:
         return make_base(cfg)
     if w == "datasaver":
-        return adaptive.DataSaver(make_base(cfg, extra=True), arg_picker=operator.itemgetter("y"))
+        picker = {"y": operator.itemgetter("y"), "val": operator.itemgetter("val"), "fn": pick_val}[cfg.get("picker", "y")]
+        return adaptive.DataSaver(make_base(cfg, extra=True), arg_picker=picker)
     if w == "balancing":
         kids = [make_base(cfg, a=cfg["a"] * s) for s in cfg["scales"]]
-        return adaptive.BalancingLearner(kids, strategy=cfg["strategy"])
+        cdims = [{"scale": s} for s in cfg["scales"]] if cfg.get("cdims") else None
+        return adaptive.BalancingLearner(kids, cdims=cdims, strategy=cfg["strategy"])
     raise ValueError(w)
 
 
@@ -277,7 +343,8 @@ def _unsolicited_base(k, kind, rng):
         sd = k.n_requested + rng.randint(1, 4)          # leaves a gap in the seeds
         return None if sd in k.data or sd in k.pending_points else sd
     if kind == "avg1d":
-        x = round(rng.uniform(-0.95, 0.95), 3)
+        lo, hi = k.bounds
+        x = round(lo + (hi - lo) * rng.uniform(0.025, 0.975), 3)
         return None if x in k.data else (0, x)
     if kind == "seq":
         free = [i for i in range(len(k.sequence)) if i not in k.data and i not in k.pending_points]
@@ -371,7 +438,7 @@ def drive(l, cfg, rng, info=None):
                 l.tell(p, y)
                 hist.append((p, y))
                 info["unsolicited"] += 1
-        pts = commit(rng.choice([1, 1, 2, 3, 5]))
+        pts = commit(rng.choice([1, 1, 2, 3, 5] + ([8] if cfg["kind"] != "int" else [] if cfg.get("early") else [12, 40])))
         if pts is None:
             break
         if not pts:
@@ -385,7 +452,7 @@ def drive(l, cfg, rng, info=None):
             discard()
     finish_round()
     # closing phase
-    if not cfg.get("corner_hole") and rng.random() < 0.7:
+    if not cfg.get("corner_hole") and rng.random() < (0.25 if cfg.get("early") else 0.7):
         pts = commit(rng.choice([2, 3, 4, 5]))
         if pts:
             wait += pts
@@ -394,7 +461,8 @@ def drive(l, cfg, rng, info=None):
     if cfg["kind"] == "avg1d" and rng.random() < 0.5:
         # two unsolicited samples at a fresh location: the snapshot is taken while a location has exactly two
         # samples (with the default min_samples = 50 an ask-driven run is almost never in that state)
-        x = round(rng.uniform(-0.95, 0.95), 3)
+        lo, hi = cfg["bounds"]
+        x = round(lo + (hi - lo) * rng.uniform(0.025, 0.975), 3)
         child = rng.randrange(len(l.learners)) if cfg.get("wrap") == "balancing" else None
         for sd in (0, 1):
             p = (sd, x) if child is None else (child, (sd, x))
@@ -551,7 +619,7 @@ def restore(l, cfg, mech, workdir, tag):
             # curvature_loss_function() / resolution_loss_function() return local closures, which the
             # standard pickler cannot serialise by design (cloudpickle can): no restored learner exists,
             # the property says nothing.  Counted, see the final report of the builder.
-            if "local object" in str(e) and cfg.get("loss") in ("curvature", "resolution"):
+            if "local object" in str(e) and cfg.get("loss") in ("curvature", "curvature2", "resolution", "resolution2"):
                 return None
             raise
     if mech == "cloudpickle":
@@ -610,6 +678,20 @@ def check_case(chk, cfg, seed, stats, workdir, tag):
         kk = l.learners if cfg.get("wrap") == "balancing" else [base_of(l, cfg)]
         stats["avg1d_histories_with_a_two_sample_location"] = stats.get("avg1d_histories_with_a_two_sample_location", 0) + \
             any(len(sm) == 2 for k in kk for sm in k._data_samples.values())
+    kids0 = l.learners if cfg.get("wrap") == "balancing" else [base_of(l, cfg)]
+    young = {"avg": lambda k: k.npoints < k.min_npoints,
+             "avg1d": lambda k: any(len(sm) < k.min_samples for sm in k._data_samples.values()),
+             "l1d": lambda k: any(b not in k.data for b in k.bounds),
+             "lnd2": lambda k: any(b not in k.data for b in k._bounds_points),
+             "lnd3": lambda k: any(b not in k.data for b in k._bounds_points),
+             "int": lambda k: k.first_ival.depth_complete is None,
+             "seq": lambda k: k.npoints < 3}.get(cfg["kind"])
+    stats["early_histories"] += bool(cfg.get("early"))
+    if young is not None and any(young(k) for k in kids0):
+        key = {"avg": "AverageLearner below min_npoints", "avg1d": "AverageLearner1D with a location below min_samples",
+               "l1d": "Learner1D lacking an end point", "lnd2": "LearnerND lacking a corner", "lnd3": "LearnerND lacking a corner",
+               "int": "IntegratorLearner before its first interval is complete", "seq": "SequenceLearner with fewer than 3 results"}[cfg["kind"]]
+        stats["snapshots_of_young_learners"][key] = stats["snapshots_of_young_learners"].get(key, 0) + 1
     stats["l2d_histories_with_corner_hole"] = stats.get("l2d_histories_with_corner_hole", 0) + bool(cfg.get("corner_hole"))
     stats["histories_with_discard"] = stats.get("histories_with_discard", 0) + (info["discards"] > 0)
     stats["histories_with_unsolicited_tell"] = stats.get("histories_with_unsolicited_tell", 0) + (info["unsolicited"] > 0)
@@ -619,6 +701,7 @@ def check_case(chk, cfg, seed, stats, workdir, tag):
     twin_ok = same_val(data_of(l, cfg), data_of(l2, cfg))
     stats["twin_not_identical"] += not twin_ok
     copies, origin = {}, {}
+    asked, dropped = {}, set()          # for the continued run: the copy's answer to ask(10); mechanisms that hit a listed finding
     for mech in MECHS:
         src = l2 if (mech == "copy_from" and twin_ok) else l
         try:
@@ -658,6 +741,7 @@ def check_case(chk, cfg, seed, stats, workdir, tag):
             if not ok and missing_end and mech not in ("pickle", "cloudpickle"):
                 chk.fail(SIG_XSCALE, f"{name} {cfg} after {len(hist)} results: {mech}: loss() {loss1!r} vs original {loss0!r}",
                          dict(replay, mech=mech))
+                dropped.add(mech)
                 continue
             if not ok:
                 chk.fail(f"C13:{name}:{mech} loss differs", f"{name} {cfg} after {len(hist)} results: {mech}: loss() {loss1!r} vs original {loss0!r}",
@@ -699,6 +783,7 @@ def check_case(chk, cfg, seed, stats, workdir, tag):
         if mech == "copy_from" and not twin_ok:
             continue
         a1 = answers[mech] if mech in answers else ask10(c)
+        asked[mech] = a1
         stats["asks_compared"] += 1
         if (a0 is None) != (a1 is None):
             ok = False
@@ -731,20 +816,240 @@ def check_case(chk, cfg, seed, stats, workdir, tag):
                          f"{name} {cfg} after {len(hist)} results, the last {info['trailing_tentative']} operation(s) before "
                          f"the snapshot being ask(n, tell_pending=False): {mech}: the original continues with children "
                          f"{kids_o}, the restored copy with {kids_c}", dict(replay, mech=mech))
+                dropped.add(mech)
                 continue
             if kids_c == [i % len(l.learners) for i in range(len(kids_c))]:
                 chk.fail(SIG_CYCLE, f"{name} {cfg} after {len(hist)} results: {mech}: the original continues with children "
                                     f"{kids_o}, the restored copy with {kids_c}", dict(replay, mech=mech))
+                dropped.add(mech)
                 continue
         if not ok and missing_end and mech not in ("pickle", "cloudpickle"):
             chk.fail(SIG_XSCALE, f"{name} {cfg} after {len(hist)} results: {mech}: ask(10) = {_short(a1)} vs original {_short(a0)}",
                      dict(replay, mech=mech))
+            dropped.add(mech)
             continue
         if not ok:
             chk.fail(f"C13:{name}:{mech} next suggestions differ",
                      f"{name} {cfg} after {len(hist)} results: {mech}: ask(10) = {_short(a1)} vs original {_short(a0)}", dict(replay, mech=mech))
             return True
+    # ---- the run goes on: the same further history for the original and every restored copy
+    followers = {}
+    for mech, c in copies.items():
+        cd = cont_demands(cfg, mech)
+        if cd is None or mech in dropped or (mech == "copy_from" and not twin_ok):
+            continue
+        if cd[1]:
+            if mech not in asked or not _same_answer(cfg, a0, asked[mech]):
+                stats["cont_not_started_answers_equal_only_up_to_rounding"] += mech in asked
+                continue
+        followers[mech] = (c,) + cd
+        stats["cont_followers"][mech] = stats["cont_followers"].get(mech, 0) + 1
+    if followers and not _raised(a0):
+        continue_run(chk, cfg, seed, l, a0, followers, stats, replay, name, len(hist))
     return True
+
+
+# ------------------------------------------------------------------ the run continued after the restore
+# "A pickled copy reports the same loss and makes the same later suggestions as the original; a copy restored from a
+# file or by copy_from does so too, up to rounding, for the learners whose state is a function of their data":
+# original and copy are taken through the SAME further history (batch asks, results delivered out of order, partly
+# discarded) and must keep agreeing on data, loss() and on every answer to ask.
+CONT_INT_RTOL = 1e-9        # IntegratorLearner: err / igral are sums over a set of interval objects
+CONT_AVG1D_RTOL = 1e-9      # AverageLearner1D: means are recomputed from the samples (batch vs running mean)
+
+
+def cont_demands(cfg, mech):
+    """(loss mode, ask mode) the continued run must preserve, None where the property does not demand lasting agreement.
+    loss mode 'exact' | 'close' (LOSS_RTOL) | 'close9'; ask mode 'exact' | 'close' | None (copy is not asked)."""
+    kind = cfg["kind"]
+    if kind == "l2d":
+        return None                 # beyond its stack a Learner2D chooses by the iteration order of a set
+    if kind == "l1d" and cfg["factor"] != 1:
+        # file / copy_from: the loss table is not a function of the data.  Pickles: the copy keeps the stored losses but
+        # restarts the rescale hysteresis (_oldscale); agreement is demanded in the regime of `continued_case` below
+        return None
+    want_loss, want_ask = demands(cfg, mech)
+    if kind == "avg1d":
+        return "close9", None       # its suggestions are exempt: the copy is told what the original asked for
+    if not want_loss or not want_ask:
+        return None
+    if kind == "int":
+        return "close9", want_ask
+    return want_loss, want_ask
+
+
+def _raised(a):
+    return isinstance(a, tuple) and len(a) == 2 and list(a[0])[:1] and isinstance(list(a[0])[0], tuple) and list(a[0])[0][:1] == ("raised",)
+
+
+def _answer_points(cfg, a):
+    """ask answer -> list of points as the learner's tell takes them"""
+    if a is None:
+        return []
+    if isinstance(a, list):         # BalancingLearner over IntegratorLearners: one answer per child
+        return [(i, p) for i, x in enumerate(a) if x is not None for p in x[0]]
+    return list(a[0])
+
+
+def _same_answer(cfg, a0, a1):
+    if (a0 is None) != (a1 is None):
+        return False
+    return points_equal(_answer_points(cfg, a0), _answer_points(cfg, a1), 0)
+
+
+def _loss_ok(mode, lo, lc):
+    if mode == "exact":
+        return same_val(lo, lc)
+    return close_val(lo, lc, LOSS_RTOL if mode == "close" else CONT_INT_RTOL)
+
+
+def _shared(l, cfg, p):
+    """IntegratorLearner: number of intervals the abscissa belongs to"""
+    try:
+        k = l.learners[p[0]] if cfg.get("wrap") == "balancing" else base_of(l, cfg)
+        return len(k.x_mapping[p[1] if cfg.get("wrap") == "balancing" else p])
+    except Exception:
+        return 1
+
+
+def _split_centre(l, cfg, p):
+    """IntegratorLearner: the abscissa is the centre of an interval that has children"""
+    try:
+        k = l.learners[p[0]] if cfg.get("wrap") == "balancing" else base_of(l, cfg)
+        x = p[1] if cfg.get("wrap") == "balancing" else p
+        return any(iv.children and x == iv.children[0].b for iv in k.x_mapping[x])
+    except Exception:
+        return False
+
+
+def continue_run(chk, cfg, seed, l, a0, followers, stats, replay, name, nhist):
+    kind, w = cfg["kind"], cfg.get("wrap")
+    rng = random.Random(seed * 31 + 7)
+    f = l.function
+    is_int = kind == "int"
+    direct = w == "balancing" and is_int
+    live = dict(followers)
+    for c, _, _ in live.values():
+        set_factor(c, cfg)          # (an unpickled Learner1D comes back with the default recompute factor)
+    set_factor(l, cfg)
+    wait = _answer_points(cfg, a0)
+    rounds = 4
+    ops = ["ask(10)"]
+    stats["cont_runs"] += 1
+
+    def bad(mech, what, step):
+        chk.fail(f"C13:{name}:{mech} run continued after the restore differs",
+                 f"{name} {cfg}: {nhist} results, nothing pending, {mech}; then original and copy are taken through the same "
+                 f"further history [{', '.join(ops)}]: {what}", dict(replay, mech=mech, cont_step=step))
+        live.pop(mech, None)
+
+    step = 0
+    for rnd in range(rounds):
+        last = rnd == rounds - 1
+        order = list(wait)
+        rng.shuffle(order)
+        if order and not last and rng.random() < (0.75 if is_int and rnd == 0 else 0.2):
+            # no result arrives before the next request: the learner has to choose with all of them outstanding
+            # (an IntegratorLearner then refines and splits intervals whose own points are still in flight)
+            k = 0
+            ops.append("results held back")
+            stats["cont_rounds_results_held_back"] += 1
+        elif is_int and order and rng.random() < 0.9:
+            # results for abscissae shared by several intervals (a parent and its children, neighbours) arrive last,
+            # in most of these rounds the centres of intervals that have been split last of all
+            centres = rng.random() < 0.8
+            order.sort(key=lambda p: (_shared(l, cfg, p) > 1, centres and _split_centre(l, cfg, p)))
+            stats["cont_int_rounds_shared_points_last"] += 1
+            ops.append("deliver all, shared abscissae last" + (", centres of split intervals last of all" if centres else ""))
+            k = len(order)
+        elif is_int or last or not order:
+            k = len(order)
+            ops.append("deliver all shuffled")
+        else:
+            k = rng.randint(1, len(order))
+            ops.append(f"deliver {k} of {len(order)} shuffled")
+        for p in order[:k]:
+            step += 1
+            try:
+                y = f(p)
+                l.tell(p, y)
+                lo = float(l.loss())
+            except Exception as e:      # internal errors of the original under out-of-order delivery: other properties' findings
+                key = f"{name}:{type(e).__name__} (continued run)"
+                stats["skipped_other_finding"][key] = stats["skipped_other_finding"].get(key, 0) + 1
+                return
+            stats["cont_tells"] += 1
+            for mech, (c, lm, am) in list(live.items()):
+                try:
+                    c.tell(p, y)
+                    lc = float(c.loss())
+                except Exception as e:
+                    bad(mech, f"after result {step} ({p!r}) the copy raised {type(e).__name__}: {str(e)[:160]} (the original did not)", step)
+                    continue
+                if not _loss_ok(lm, lo, lc):
+                    bad(mech, f"after result {step} ({p!r}) loss() = {lc!r} vs original {lo!r}", step)
+        wait = order[k:]
+        if wait and not is_int and rng.random() < 0.25:
+            ops.append("remove_unfinished")
+            l.remove_unfinished()
+            for c, _, _ in live.values():
+                c.remove_unfinished()
+            wait = []
+        d0, m0 = data_of(l, cfg), means_of(l, cfg)
+        for mech, (c, lm, am) in list(live.items()):
+            d1 = data_of(c, cfg)
+            if not same_val(d0, d1):
+                bad(mech, f"data differ after {step} further results: {_first_diff(d0, d1)}", step)
+            elif not means_close(m0, means_of(c, cfg)):
+                bad(mech, f"mean values / integral estimates differ beyond rounding after {step} further results", step)
+        if not live or last:
+            break
+        n = (rng.randint(25, 70) if rnd == 0 else rng.randint(30, 80) if rnd == 1 else rng.randint(5, 30)) if is_int else rng.choice([1, 2, 3, 5, 8])
+        child = rng.randrange(len(l.learners)) if direct else None
+        ops.append(f"ask({n})" if child is None else f"child {child}: ask({n})")
+
+        def ask_n(x):
+            try:
+                if direct:
+                    pts, imps = x.learners[child].ask(n)
+                    return [(child, q) for q in pts], imps
+                return x.ask(n)
+            except RuntimeError as e:
+                if "No way to improve" not in str(e):
+                    raise
+                return None
+
+        try:
+            a = ask_n(l)
+        except Exception as e:
+            key = f"{name}:{type(e).__name__} (continued run)"
+            stats["skipped_other_finding"][key] = stats["skipped_other_finding"].get(key, 0) + 1
+            return
+        stats["cont_asks"] += 1
+        stats["cont_int_batch_asks"] += is_int
+        for mech, (c, lm, am) in list(live.items()):
+            if am is None:
+                continue
+            try:
+                b = ask_n(c)
+            except Exception as e:
+                bad(mech, f"ask({n}) raised {type(e).__name__}: {str(e)[:160]} (the original answered {_short(a)[:120]})", step)
+                continue
+            if (a is None) != (b is None):
+                bad(mech, f"ask({n}) = {_short(b)} vs original {_short(a)}", step)
+                continue
+            if a is None:
+                continue
+            rt = 0 if am == "exact" else ASK_RTOL
+            if not (points_equal(list(a[0]), list(b[0]), rt) and
+                    (close_val(a[1], b[1], 1e-6) if _numeric(a[1]) and _numeric(b[1]) else True)):
+                bad(mech, f"ask({n}) = {_short(b)} vs original {_short(a)}", step)
+            elif rt and not points_equal(list(a[0]), list(b[0]), 0):
+                stats["cont_stopped_answers_equal_only_up_to_rounding"] += 1
+                live.pop(mech)
+        if a is None:
+            break
+        wait += list(a[0])
 
 
 def _numeric(v):
@@ -919,17 +1224,21 @@ def learner2d_usable():
 def plan(chk):
     """(cfg, seed) list: every base learner, BalancingLearner over each, DataSaver over each."""
     quick = chk.quick
-    per = {"l1d": (80, 25, 25), "lnd2": (24, 10, 10), "lnd3": (8, 4, 4), "avg": (20, 8, 8), "avg1d": (16, 8, 8),
-           "seq": (20, 8, 8), "int": (30, 10, 10)} if quick else \
+    per = {"l1d": (80, 25, 25), "lnd2": (24, 10, 10), "lnd3": (8, 4, 4), "avg": (40, 12, 12), "avg1d": (16, 8, 8),
+           "seq": (20, 8, 8), "int": (60, 16, 16)} if quick else \
           {"l1d": (900, 180, 180), "lnd2": (240, 75, 75), "lnd3": (90, 30, 30), "avg": (180, 60, 60),
            "avg1d": (180, 60, 60), "seq": (180, 60, 60), "int": (240, 75, 75)}
     kinds = list(BASE_KINDS)
+    import os
+    only = os.environ.get("VERIF_C13_KINDS")         # development aid: restrict the plan to some learner kinds
     ok2d, why = learner2d_usable()
     if ok2d:
         kinds.append("l2d")
         per["l2d"] = per["lnd2"]
     out = []
     for kind in kinds:
+        if only and kind not in only.split(","):
+            continue
         for wi, wrap in enumerate([None, "balancing", "datasaver"]):
             for k in range(per[kind][wi]):
                 rng = chk.rng("cfg", kind, wrap, k)
@@ -942,10 +1251,12 @@ def plan(chk):
                     # (strategy 'loss' / 'npoints' ask a LearnerND child with tell_pending=True and then call
                     #  tell_pending again: ValueError "Point already in triangulation" -- another property's business)
                     cfg["n"] = min(cfg["n"] * len(cfg["scales"]), 60 if kind != "int" else 200)
+                    cfg["cdims"] = rng.random() < 0.5
                     if kind == "seq":
-                        cfg["ntotal"] = cfg["n"] + 25        # a BalancingLearner cannot ask an exhausted child
+                        cfg["ntotal"] = cfg["n"] + 70        # a BalancingLearner cannot ask an exhausted child
                 elif wrap == "datasaver":
                     cfg["wrap"] = "datasaver"
+                    cfg["picker"] = rng.choice(["y", "val", "fn"])
                 out.append((cfg, chk.rng("hist", kind, wrap, k).randrange(2 ** 31)))
     return out, ok2d, why
 
@@ -954,7 +1265,8 @@ def run(chk: Check) -> int:
     chk.prove(["theories/Props/C13.vo"], THEOREMS)
     stats = {"roundtrips": 0, "loss_compared": 0, "asks_compared": 0, "skipped_pending": 0,
              "pickle_closure_loss_not_picklable": 0, "twin_not_identical": 0, "ask_raises": 0, "skipped_other_finding": {}, "usable": {}, "histories": 0,
-             "continued_cases": 0, "continued_with_stale_losses": 0, "continued_steps": 0}
+             "continued_cases": 0, "continued_with_stale_losses": 0, "continued_steps": 0, **CONT_STATS,
+             "cont_followers": {}, "snapshots_of_young_learners": {}}
     cases, ok2d, why = plan(chk)
     if not ok2d:
         chk.fail(SIG_F7, f"Learner2D cannot be driven past its corner points on this platform ({why}); "
@@ -970,11 +1282,26 @@ def run(chk: Check) -> int:
         stats["histories"] += 1
         nm = name_of(cfg)
         stats["usable"][nm] = stats["usable"].get(nm, 0) + bool(usable)
-        chk.note_case((cfg, seed), usable and cfg["n"] >= 5)
+        chk.note_case((cfg, seed), bool(usable and (cfg["n"] >= 5 or cfg.get("early"))))
         if usable and i % 37 == 0:
             chk.sample({"learner": nm, "cfg": {k: v for k, v in cfg.items() if k != "kind"}, "mechanisms": MECHS})
         if sum(1 for f in chk.failures if f["signature"] not in (SIG_F7, SIG_CYCLE, SIG_CYCLE_TENTATIVE, SIG_XSCALE)) > 40:
             break
+    # corpus: (cfg, seed) pairs kept because they reach states the random plan reaches only now and then
+    # (found by running seeded changes of /repo); the unchanged tree must agree on them like on any other history
+    import json
+    corpus = chk.work.parents[1] / "corpus" / "C13"
+    stats["corpus_cases"] = 0
+    for f in sorted(corpus.glob("*.json")) if corpus.exists() else []:
+        d = json.loads(f.read_text())
+        cfg = d["cfg"]
+        if "bounds" in cfg:
+            cfg["bounds"] = tuple(cfg["bounds"])
+        usable = check_case(chk, cfg, d["seed"], stats, chk.work, f"k{stats['corpus_cases']}")
+        stats["corpus_cases"] += 1
+        chk.note_case(("corpus", f.name), bool(usable))
+        if not usable:
+            chk.broke("machinery", f"corpus case {f.name} is no longer a usable history", stats["skipped_other_finding"])
     # continued run of pickled Learner1D copies (and wrappers around Learner1D), default factor 2
     for wrap, count in ((None, 40 if chk.quick else 400), ("balancing", 10 if chk.quick else 80), ("datasaver", 10 if chk.quick else 80)):
         for k in range(count):
@@ -991,7 +1318,7 @@ def run(chk: Check) -> int:
     for nm, n in stats["usable"].items():
         if n == 0:
             chk.broke("machinery", f"no usable history for {nm}", stats["skipped_other_finding"])
-    for f in chk.work.glob("c*_save_*.pickle"):
+    for f in list(chk.work.glob("c*_save_*.pickle")) + list(chk.work.glob("k*_save_*.pickle")):
         f.unlink()
     sigs = {}
     for f in chk.failures:
@@ -1002,19 +1329,33 @@ def run(chk: Check) -> int:
     chk.log(f"{stats['histories']} histories, {stats['roundtrips']} round trips, loss compared {stats['loss_compared']}, "
             f"asks compared {stats['asks_compared']}, skipped {stats['skipped_other_finding']}; failures {len(chk.failures)}")
     return chk.finish(
-        rule="for each learner type that runs here (Learner1D scalar/vector with 5 shipped losses and factor 1 or 2, LearnerND 2D/3D "
-             "scalar/vector, AverageLearner, AverageLearner1D, SequenceLearner, IntegratorLearner) and for BalancingLearner "
-             "(1-3 children, 4 strategies) and DataSaver around each: an ask-driven history with out-of-order delivery that ends "
-             "with nothing pending -- committing asks of 1..5 points, non-committing asks ask(n, tell_pending=False) in between, a "
+        rule="for each learner type that runs here, constructor parameters drawn from default and non-default values (Learner1D "
+             "scalar/vector with 8 losses incl. parametrised curvature/resolution losses and a custom nth_neighbors=2 loss, factor 1 "
+             "or 2; LearnerND 2D/3D scalar/vector with the 6 shipped losses; AverageLearner atol/rtol/min_npoints; AverageLearner1D "
+             "delta/alpha/min_samples/max_samples/neighbor_sampling/min_error/loss; SequenceLearner over ints, floats, lists, tuples; "
+             "IntegratorLearner tol 1e-3..1e-12 and four domains) and for BalancingLearner (1-3 children, 4 strategies, with and "
+             "without cdims) and DataSaver (three arg_pickers) around each: an ask-driven history with out-of-order delivery that ends "
+             "with nothing pending, stopped early in ~35 % of the cases (50 % for the IntegratorLearner): a handful of results, so that "
+             "the snapshot is taken below min_npoints / min_samples, before both end points / all corners / the first interval are "
+             "done (counted in snapshots_of_young_learners) "
+             "-- committing asks of 1..8 points (late IntegratorLearner histories: up to 40), non-committing asks ask(n, tell_pending=False) in between, a "
              "closing committing batch ask (n > 1) fully delivered and, in ~40 % of the histories, one or two non-committing asks "
              "as the last operations before the snapshot (counted) --, then save/load gzip and raw into new(), pickle, cloudpickle, new().copy_from(); data compared "
              "exactly (arrays elementwise, extra_data, per-child data), loss() exactly for pickles and to 1e-12 for file/copy_from "
              "where the state is a function of the data, next ten suggestions exactly for pickles / to 1e-10 otherwise "
-             "(AverageLearner1D exempt); continued run: Learner1D with the default factor 2 (and BalancingLearner / DataSaver "
+             "(AverageLearner1D exempt); the run then goes on: the original and every restored copy for which the property demands "
+             "lasting agreement (pickles: all but Learner2D and Learner1D with factor 2; file/copy_from: the learners whose state is a "
+             "function of their data) are taken in lock step through up to four further rounds -- results held back, delivered "
+             "shuffled completely or partly, sometimes remove_unfinished, then a batch ask (1..8 points; IntegratorLearner 25..80 "
+             "points with the abscissae shared by several intervals, in most rounds the centres of split intervals last of all) -- "
+             "and data (exact), loss() after every single result (exact for pickles, 1e-12 for file/copy_from, 1e-9 for the "
+             "IntegratorLearner's set sums and AverageLearner1D's recomputed means) and every ask answer (points exact for pickles / "
+             "1e-10 otherwise, promised improvements to 1e-6; AverageLearner1D copies are not asked) must agree; "
+             "continued run of pickled Learner1D with the default factor 2 (and BalancingLearner / DataSaver "
              "around it) on a ramp with a late narrow peak (so that stale interval losses exist at pickling time, counted), "
              "pickled, then original and copy are told the same further results whose values lie inside the y bounding box "
              "(no rescale possible) and loss() and ask(1), ask(5) must stay identical after every tell; histories that hit an internal error of another property's finding (F1, F5, F12) are "
-             "skipped and counted; non-trivial = usable history with at least 5 results",
+             "skipped and counted; non-trivial = usable history aimed at 5 or more results, or a deliberately early snapshot",
         assumptions=["cloudpickle / gzip / the file system round-trip Python values faithfully (trusted)",
                      "Learner1D restored state beyond the data dictionary: oracle only (C13_l1d `_partial`)"])
 
@@ -1053,7 +1394,8 @@ def replay(doc) -> int:
             continue
         sink = Sink()
         stats = {"roundtrips": 0, "loss_compared": 0, "asks_compared": 0, "skipped_pending": 0,
-                 "pickle_closure_loss_not_picklable": 0, "twin_not_identical": 0, "ask_raises": 0, "skipped_other_finding": {}}
+                 "pickle_closure_loss_not_picklable": 0, "twin_not_identical": 0, "ask_raises": 0, "skipped_other_finding": {}, **CONT_STATS,
+                 "cont_followers": {}, "snapshots_of_young_learners": {}}
         check_case(sink, cfg, r["seed"], stats, work, "replay")
         print("replayed", name_of(cfg), cfg, "->", sink.failures[:1] or "oracle silent")
         bad += bool(sink.failures)
